@@ -2,6 +2,7 @@ import PdfModel.Lemmas.StorageRun
 import PdfModel.Lemmas.StoragePrefix
 import PdfModel.Lemmas.StorageLoad
 import PdfModel.Lemmas.HistBytes
+import PdfModel.Lemmas.BuildBytes
 
 /-!
 # C09 — a reload sees exactly the saved modifications and nothing else changes
@@ -635,5 +636,87 @@ theorem late_failure_keeps_revision_bytes (fmt : R → List UInt8) (env : Env R)
   have hbd := bounds_of_save fmt env.parseReal _ _ (layoutOf_pos fmt typed b) b0.doc b.doc b'.doc chain0 i hb h1.inv hcm htr hv
     (by have := bk.xpos_le; simp only at hsmall; omega)
   exact ⟨hbytes, saveB_spec fmt env.parseReal b0.doc chain0 b b' i hb h1.inv h1.rep.len typed hcb hbd, h2⟩
+
+/-! ### Non-vacuity at byte level: a second save on a file that already holds objects
+
+`Rep` for a file with content is *derived*, not assumed: the history below starts from the bare header (the only base
+whose `Rep` is immediate), its first `save` writes a page tree and a catalog, and `rep_saveB` (inside `hinv_stepB`)
+establishes `Rep` for the resulting 2-object file; the update and the final save then run on that file, and
+`reload_sees_saved_bytes` is applied with every hypothesis discharged. (A base *document* in the sense of `BaseOK` must
+have nothing pending, i.e. be a reloaded one; `BaseOK` for the reload of a saved state is `load_baseOK` + `FileWF`, which
+Props/C09 instantiates abstractly only — `tinyFixed` — not for this byte-level state: left open.) -/
+
+open BuildBytes in
+/-- the bytes after one save on the empty storage represent a state that holds objects -/
+theorem rep_nontrivial (fmt : R → List UInt8) (env : Env R) (hd : env.decrypt = none) (pfuel : Nat)
+    (dec : Dict R → List UInt8 → Out (List UInt8)) (hdec : NoFilter dec) (b1 : BDoc R) (i : SaveInfo)
+    (hs : saveB fmt true (prepared fmt [] none) = (b1, .ok i))
+    (hsmall : b1.bytes.length ≤ fileMax) (hpf : 3 * b1.bytes.length ≤ pfuel) :
+    Rep (parsers env pfuel dec) b1.bytes b1.doc.st ∧ b1.doc.st.objs ≠ [] ∧ b1.doc.st.secs ≠ [] := by
+  have hb0 := baseOK_empty (R := R) none 0
+  have hv0 := baseVals_empty fmt env.parseReal (none : Option (Prim R)) 0 (by intro v h; cases h) (by omega)
+  have hmono : (prepared fmt ([] : List (PageB R)) none).bytes.length ≤ b1.bytes.length := by
+    rw [(saveB_ok_iff fmt true _ _ i hs).2.2]; simp
+  have h1 : HInv fmt env pfuel dec (emptyB none 0) (prepared fmt [] none) :=
+    hinv_runB fmt env hd pfuel dec hdec _ [] hb0 hv0 (buildOps []) _ (hinv_base fmt env pfuel dec _ [] hb0 (rep_empty _ none 0))
+      (goodHist_buildOps fmt env.parseReal [] (by simp) (by intro p hp; simp at hp) _)
+      (by show (prepared fmt [] none).bytes.length ≤ fileMax; omega)
+      (by show 3 * (prepared fmt [] none).bytes.length ≤ pfuel; omega)
+  have hstep : stepB fmt (prepared fmt [] none) (.save true) = (b1, .saved i) := by simp [stepB, hs]
+  have h2 := hinv_stepB fmt env hd pfuel dec hdec _ _ [] hb0 hv0 h1 (.save true) trivial
+    (by rw [hstep]; exact hsmall) (by rw [hstep]; exact hpf)
+  rw [hstep] at h2
+  have bk := saveB_backend fmt _ [] _ b1 i hb0 h1.inv h1.rep.len true (committedB_of_ok fmt true _ _ i hs)
+  refine ⟨h2.rep, ?_, by rw [bk.secs]; simp⟩
+  obtain ⟨ext, e1, _⟩ := bk.objs
+  rw [e1]; simp
+
+def nvEnv : Env (List UInt8) :=
+  { parseReal := fun t => some t, resolveLen := fun _ _ => .err, allowMissingEndobj := false, decrypt := none, fileOffset := 0 }
+
+def nvDec : Dict (List UInt8) → List UInt8 → Out (List UInt8) :=
+  fun d raw => match dictGet d kFilter with | none => .ok raw | some _ => .err
+
+open BuildBytes in
+/-- the history: the builder's operations for a document without pages (page tree 1, catalog 2), a save — from here on
+    the file holds objects —, then the page tree is replaced -/
+def nvOps : List (OpB (List UInt8)) :=
+  buildOps [] ++ [.save true, .update 1 (treeVal [])]
+
+open BuildBytes in
+/-- every hypothesis of `reload_sees_saved_bytes` holds for this history and its final save (the success of the save and
+    the size of the output are computed by the kernel), so its conclusion does: the 2-revision file opens and object 1
+    reads the page tree written by the update -/
+example : ∃ b' i t T,
+    saveB id true (runB id (emptyB none 0) nvOps).1 = (b', .ok i) ∧
+    openB nvEnv (3 * b'.bytes.length) nvDec 3 b'.bytes = .ok (0, t, T) ∧
+    ∃ o, resolveB nvEnv (3 * b'.bytes.length) nvDec 2 b'.bytes 0 t 1 = .ok o ∧ Denotes b'.bytes o (treeVal []) := by
+  have hok : (saveB id true (runB id (emptyB none 0) nvOps).1).2.isOk = true := by decide +kernel
+  have hsm : (saveB id true (runB id (emptyB none 0) nvOps).1).1.bytes.length ≤ fileMax := by decide +kernel
+  have hsecs : (saveB id true (runB id (emptyB none 0) nvOps).1).1.doc.st.secs.length + 1 ≤ 3 := by decide +kernel
+  generalize hs : saveB id true (runB id (emptyB none 0) nvOps).1 = res at hok hsm hsecs
+  obtain ⟨b', o⟩ := res
+  cases o with
+  | ok i =>
+    have hb0 := baseOK_empty (R := List UInt8) none 0
+    have hv0 := baseVals_empty id nvEnv.parseReal (none : Option (Prim (List UInt8))) 0 (by intro v h; cases h) (by omega)
+    have hgood : GoodHist id nvEnv.parseReal (emptyB none 0) nvOps := by
+      apply goodHist_of_vals
+      intro op hop b
+      simp only [nvOps, buildOps, pageOps, List.length_nil, List.replicate_zero, List.nil_append, List.append_nil,
+        List.cons_append, List.mem_cons, List.not_mem_nil, or_false] at hop
+      rcases hop with rfl | rfl | rfl | rfl
+      · exact okVal_tree id nvEnv.parseReal _ (by intro k hk; simp at hk) (by simp)
+      · exact okVal_catalog id nvEnv.parseReal _ (by omega)
+      · trivial
+      · exact okVal_tree id nvEnv.parseReal _ (by intro k hk; simp at hk) (by simp)
+    obtain ⟨t, T, hopen, _, hw, _⟩ := reload_sees_saved_bytes id nvEnv rfl (3 * b'.bytes.length) nvDec
+      (by intro d raw h; simp [nvDec, h]) (emptyB none 0) [] hb0 hv0 (rep_empty _ none 0) nvOps hgood b' i true hs
+      hsm (Nat.le_refl _) 3 hsecs 0
+    refine ⟨b', i, t, T, rfl, hopen, hw 1 (treeVal []) ?_⟩
+    rfl
+  | err => simp [Out.isOk] at hok
+  | panic => simp [Out.isOk] at hok
+  | oof => simp [Out.isOk] at hok
 
 end C09Bytes
